@@ -94,3 +94,17 @@ Check C03_precedence_example :
   ex_merge_expected (ex_merge_run DupFirstWins) = true /\
   ex_merge_expected (ex_merge_run DupLastWins) = true.
 Print Assumptions C03_precedence_example.
+
+(* THE WHOLE FLUSH.  After its own entries a mapping delivers exactly the survivors of the offered merge
+   entries: the sources in the order newest first (a later `<<` entry before an earlier one), an entry
+   whose key is already present -- an own key, or a key delivered from a newer source -- dropped
+   silently, whatever the duplicate-key policy, and every delivered key with its recorded value.
+   For ALL states of the map accessor in its flush phase, all queues and stacks of batches. *)
+Theorem C03_flush_delivers_survivors : forall c x n m fuel,
+  ma_flushing m = true -> (flush_measure m < n)%nat -> (flush_measure m < fuel)%nat ->
+  flush_all n fuel c m x = Some (map handed_out_row (survivors (ma_seen m) (offered m))).
+Proof. exact flush_delivers_survivors. Qed.
+Check C03_flush_delivers_survivors : forall c x n m fuel,
+  ma_flushing m = true -> (flush_measure m < n)%nat -> (flush_measure m < fuel)%nat ->
+  flush_all n fuel c m x = Some (map handed_out_row (survivors (ma_seen m) (offered m))).
+Print Assumptions C03_flush_delivers_survivors.
